@@ -152,8 +152,8 @@ PROPS['C04'] = {
 }
 
 PROPS['C20'] = {
-    'targets': ['GridVerse.Props.C20'],
-    'theorem_files': [('GridVerse/Props/C20.lean', 'C20_'), ('GridVerse/Props/C04.lean', 'C04_')] + AG('Actions'),
+    'targets': ['GridVerse.Props.C20', 'GridVerse.Props.C20History'],
+    'theorem_files': [('GridVerse/Props/C20.lean', 'C20_'), ('GridVerse/Props/C20History.lean', 'C20_'), ('GridVerse/Props/C04.lean', 'C04_')] + AG('Actions'),
     'audit_prefix': 'C20_',
     'families': {
         'quick': [(ENVM, 'fam_gym_shipped', 168, 16), (ENVM, 'fam_env_shipped', 84, 16)],
